@@ -76,6 +76,47 @@ CLAIMED = {
          'global/class state. Not decided: equality of auto-detected vs explicitly named results. Trusted: CPython ast; '
          'frozen list of list/dict mutating methods.', '4/C15'),
 }
+
+# clauses added when rules were generalised after the seeded waves: (technique suffix, level_note suffix)
+EXTRA = {
+ 'C01': ('None-guard lint on optional numeric parameters, attribute-store bypass rule, dimension-source and axis-permutation rules, variable-store rule',
+         'Also decides: optional numeric arguments are tested with "is None"; attributes are never stored/deleted behind the attribute-name list; re-created dimensions take their length from the right source; '
+         'axis moves name the axis they move; variables enter a result through the copying primitives.'),
+ 'C02': ('numpy-integer kind NPINT in the kind domain, unit-slice constant evaluation, per-variable axis rule, dimension-length rule',
+         'Also decides: numpy integers are classified like Python integers; the unit slice built for an integer selects exactly that index (incl. -1); the axis of a selection is computed per variable; '
+         'result dimension lengths come from the selected values; joins of per-point pieces keep masks.'),
+ 'C04': ('axis-source rule for every concatenation, call-vs-reference rule for the unlimited flag',
+         'Also decides: every concatenation passes axis= the position of the stack dimension in that variable; the unlimited flag handed on is the result of calling isunlimited(), never the bound method.'),
+ 'C05': ('numpy fact: np.ma.masked_*(copy=False) writes into the mask of an already masked argument',
+         'Also decides: no query applies a masked-array constructor with copy=False to storage of its receiver/arguments.'),
+ 'C06': ('namespace-priority rule for eval, template lint for mask predicates',
+         'Also decides: file variables take priority over helper names in the eval namespace; each mask predicate applies its own numpy constructor to the values.'),
+ 'C07': ('verbatim-flow lint, attribute-completeness and iteration-order rules',
+         'Also decides: names/values read from the source reach the destination unchanged; no global attribute is filtered out; variables are defined in source order.'),
+ 'C08': ('local alias analysis for in-place updates, raw-dtype taint for dtype views',
+         'Also decides: no writer updates in place an array that aliases one still to be written (begin vs end dates); input data reach the file through astype, never through a reinterpreting dtype view.'),
+ 'C10': ('finite case analysis of the VAR-LIST eligibility predicate, must-store walk of the time handler, origin analysis of the stored level edges',
+         'Also decides: a name stays listed only with one of the two standard dimension tuples; SDATE/STIME are set on every path of a time selection; interpSigma stores the requested edges.'),
+ 'C11': ('kind-domain comparison wrapper vs base, HHMMSS radix rule for arithmetic encodings, layer-selector normalisation rule',
+         'Also decides: the wrapper classifies selector kinds like the base method; a step encoded arithmetically is hours*10000 + minutes*100 + seconds; the layer selector is resolved against the layer count before it indexes the edge array.'),
+ 'C12': ('format-string rules for reference dates and TSTEP text, parameter dead-store lint',
+         'Also decides: strptime formats have no field gaps; the TSTEP text is sliced from the right; a resolved parameter value is not overwritten unread.'),
+ 'C13': ('size algebra on the uamiv record position and the wind header scan, normal-form rule for the equality-terminated time loop, dead-parameter rule over all record-reader methods',
+         'Also decides: the number of time headers before a record equals the number of whole steps; the wind scan skips exactly the records counted between two headers; both tuples of the terminating comparison of timerange are normalised; '
+         'no selector parameter of a record-reader method is ignored.'),
+ 'C15': ('control-dependence rule on the acceptance call, one-shot-iterator lint on module state read by isMine, finite case analysis of the ICARTT sniffer on sample first lines',
+         'Also decides: getreader returns a reader only under a call of its acceptance test; isMine reads no module-level one-shot iterator; ffi1001.isMine accepts exactly the first lines the reader accepts (frozen samples, anchored in the reader grammar).'),
+ 'C16': ('mask-keeping and parameter dead-store lints, documented-default agreement',
+         'Also decides: looked-up values keep their mask; resolved parameters are used; documented defaults equal the coded ones.'),
+ 'C18': ('keyword-forwarding table vs back-end signatures, per-block dependence rule in the writer loop, attribute<-field name pairing in the second reader',
+         'Also decides: the combined reader forwards to each back end exactly the options both accept; every header field of a block depends on that block only (no leftover loop variable); cached header attributes come from the like-named field.'),
+ 'C19': ('finite case analysis of the variable-line branch of the reader (constant evaluator incl. re on constants), shape typestate of the parsed data block, significant-digit comparison of text conversions, reader line-constant algebra',
+         'Also decides: a written "NAME, UNITS" line reads back exactly (also empty units); the parsed block is reshaped to (records, variables) before per-variable indexing; the declared missing code keeps at least the digits of the data format; '
+         'reader line constants make the header blocks contiguous. Assumes codes with at most 7 significant digits.'),
+ 'C20': ('shape rule max(abs(.)) for the range estimate, slot pairing of the extended-grid offsets, finite case analysis of the 6-character level text, record-length algebra',
+         'Also decides: both range components are max of absolute differences; x/y grid offsets come from GRID[0]/GRID[1] and go to NX/NY; level texts of magnitudes below 1e5 (incl. exact powers of ten) parse back within half a unit of the last place; '
+         'index and data records have 50 + nx*ny bytes.'),
+}
 NA = {
  'C03': 'equality of computed arrays with numpy reductions for every shape/reducer/mask: no code-shape clause is a necessary condition (DESIGN 5)',
  'C14': 'quantifies over every byte offset of a cut; outcome decided at run time by file-size arithmetic and numpy.memmap validation (DESIGN 5)',
@@ -90,6 +131,8 @@ def main():
         if pid not in CLAIMED:
             continue
         tech, note, ref = CLAIMED[pid]
+        if pid in EXTRA:
+            tech, note = tech + '; ' + EXTRA[pid][0], note + ' ' + EXTRA[pid][1]
         mod = importlib.import_module('pncstatic.rules.%s' % pid.lower())
         checks.append(dict(
             property_id=pid,
